@@ -4,13 +4,17 @@
 //! replayed cases) writes events that Trace_Subset judges.
 //!
 //!   c07_subset replay <cases.ndjson> <mismatches.ndjson> <trace.ndjson> <trace-every-nth-case>
-//!       every CASE of MC_Subset: a glyf font is synthesized (composite graph, empty glyphs, hmtx with
-//!       numberOfHMetrics as prescribed, a distinct shape / advance / lsb per glyph), allsorts
-//!       `subset::subset` is called, the output is read with the independent readers
-//!       (c07_subset/{ind,glyph}.rs): glyph count, per new glyph the outline flattened through the
-//!       components, advance, lsb.
+//!       every CASE of MC_Subset: a glyf font is synthesized (composite graph with component records as
+//!       the case says - flags, argument width, arguments, transform -, instructions, empty glyphs, hmtx
+//!       with numberOfHMetrics as prescribed, a distinct shape / advance / lsb per glyph; glyph records by
+//!       the harness's own writer), allsorts `subset::subset` is called, the output is read with the
+//!       independent readers (c07_subset/{ind,glyph}.rs): glyph count, per new glyph the outline
+//!       flattened through the components (leaf + placement path), advance, lsb, the record's own
+//!       component fields and instructions.
 //!   c07_subset record <seed> <quick|thorough> <trace.ndjson>
-//!       repository fonts (glyf, CFF name-keyed / CID-keyed / with subroutines, CFF2), read from
+//!       repository fonts (glyf, CFF name-keyed / CID-keyed / with subroutines, CFF2; fonts and composites
+//!       selected by what their component records carry) and the synthesized CFF-family fonts of
+//!       c07_subset/syn.rs (subroutines, Font DICTs, operands on every number-encoding boundary), read from
 //!       OpenType and, for a sample, re-wrapped as WOFF and WOFF2 by the harness's own writers, x glyph
 //!       id lists from patterns -> `subset::subset` / `subset::prince::subset`.
 //!   c07_subset probe          lists the repository fonts with their classification
@@ -20,6 +24,7 @@
 //!   "o":{"ok","panic","err","n_out","olds":[old id per new glyph, -1 unknown],"src_comps":[[old ids]..],"out_comps":[[new ids]..]}}
 //!  {"ev":"Glyph","a":{"kind","new","old","metrics":bool,"ind":bool},
 //!   "o":{"src":{"ok","err","cmds"},"out":{...},"adv":[src,out],"lsb":[src,out],"isrc":{..},"iout":{..}}}
+//!  isrc / iout: {"kind","ends","pts":[[x,y,on]..],"comps":[[flags & 0x1ECE, arg1, arg2, [F2Dot14 raw..]]..],"instr":[bytes]}
 //!  cmds: [1,x,y] move_to [2,x,y] line_to [3,cx,cy,x,y] quadratic [4,c1x,c1y,c2x,c2y,x,y] cubic [5] close; 1/16384 unit.
 use allsorts::binary::read::ReadScope;
 use allsorts::cff::cff2::CFF2;
